@@ -731,6 +731,9 @@ def cadence_items(tier, seed):
         out.append(_item("ddpg", "ccUccccc", _cfg("ddpg", seed, 1, 2, 0.25, logger=True, gradient_steps=2)))
         for name in ("nature_dqn", "ddqn", "ddqn_per"):
             out.append(_item(name, "cccTcccccc", _cfg(name, seed, 3, 0, update_frequency=2)))
+        # resumed with a handed-in target; the first update point of the call comes before its first gradient step
+        for name in ("nature_dqn", "ddqn", "ddqn_per"):
+            out.append(_item(name, "cccTcccc", _cfg(name, seed, 3, 0, global_step=3, update_frequency=2)))
         out.append(_item("td7", "cccTcccc", _cfg("td7", seed, 3, 2, logger=True, policy_delay=2, use_checkpoints=False, global_step=4)))
         out.append(_item("nature_dqn", "cccTcccc", _cfg("nature_dqn", seed, 3, 0, global_step=4)))
         out.append(_item("sac", "cccTcccc", _cfg("sac", seed, 3, 2, 0.25, global_step=4)))
@@ -748,6 +751,7 @@ def cadence_items(tier, seed):
             out.append(_item(name, s + "cc", _cfg(name, seed, d, ls, update_frequency=2)))
         for d, gs, s in itertools.product(delays, [3, 4], few):
             out.append(_item(name, s, _cfg(name, seed, d, 0, global_step=gs)))
+            out.append(_item(name, s, _cfg(name, seed, d, 0, global_step=gs, update_frequency=2)))
     for ls, tau, s in itertools.product([0, 2], [0.25, 1.0], scripts):
         out.append(_item("ddpg", s, _cfg("ddpg", seed, 1, ls, tau)))
     for ls, tau, s in itertools.product([0, 2], [0.0, 0.005], few):
